@@ -7,12 +7,14 @@ import (
 	"fmt"
 	"reflect"
 	"strings"
+	"sync"
 	"testing"
 	"time"
 
 	"github.com/bluenviron/gortsplib/v5/pkg/description"
 	"github.com/bluenviron/gortsplib/v5/pkg/format"
 
+	"github.com/bluenviron/mediamtx/internal/conf"
 	"github.com/bluenviron/mediamtx/internal/logger"
 	"github.com/bluenviron/mediamtx/internal/unit"
 	"github.com/bluenviron/mediamtx/internal/verifutil"
@@ -289,9 +291,195 @@ func (st *verifC17State) answer() string {
 	return out
 }
 
+// ---- publisher switch on an always-available stream (the only streams whose sub stream can be replaced) ----
+//
+// `aarace p tag` forces the interleaving "old publisher writes while the replacing Initialize() is already
+// waiting for the stream lock": the harness holds strm.mutex.RLock(), starts the new publisher's Initialize()
+// in a goroutine, waits until TryRLock fails (= a writer is pending), starts the old publisher's WriteUnit in
+// another goroutine, and releases its read lock.  The write can only take effect after the switch, so the unit
+// must not reach the readers.
+
+type verifC17AA struct {
+	strm *Stream
+	rd   *Reader
+	pubs []*SubStream // pubs[0] unused (offline filler)
+	mu   sync.Mutex
+	got  []int
+}
+
+var verifC17aa *verifC17AA
+
+func verifC17AAClose() {
+	a := verifC17aa
+	if a != nil {
+		a.strm.RemoveReader(a.rd)
+		a.strm.Close()
+	}
+	verifC17aa = nil
+}
+
+func (a *verifC17AA) newPub() *SubStream {
+	in := &format.G711{PayloadTyp: 0, MULaw: true, SampleRate: 8000, ChannelCount: 1}
+	return &SubStream{
+		Stream:        a.strm,
+		InDesc:        &description.Session{Medias: []*description.Media{{Type: description.MediaTypeAudio, Formats: []format.Format{in}}}},
+		UseRTPPackets: false,
+	}
+}
+
+// everything pushed to the reader before this call has been handed to its callback when it returns
+func (a *verifC17AA) barrier() bool {
+	done := make(chan struct{})
+	dl := time.Now().Add(verifC17Timeout)
+	for {
+		if a.rd.buffer.Push(func() error { close(done); return nil }) {
+			break
+		}
+		if time.Now().After(dl) {
+			return false
+		}
+		time.Sleep(100 * time.Microsecond)
+	}
+	select {
+	case <-done:
+		return true
+	case <-time.After(verifC17Timeout):
+		return false
+	}
+}
+
+func (a *verifC17AA) answer(tag int) string {
+	if !a.barrier() {
+		return "stuck"
+	}
+	a.mu.Lock()
+	defer a.mu.Unlock()
+	res := "got=-"
+	for _, t := range a.got {
+		if t == tag {
+			res = fmt.Sprintf("got=%d", tag)
+		} else {
+			res = fmt.Sprintf("got=%d(unexpected)", t)
+			break
+		}
+	}
+	a.got = nil
+	return res
+}
+
+func (a *verifC17AA) write(p, tag int) {
+	m := a.pubs[p].InDesc.Medias[0]
+	a.pubs[p].WriteUnit(m, m.Formats[0], &unit.Unit{PTS: int64(tag) * 800, Payload: unit.PayloadG711{0x01, byte(tag >> 8), byte(tag)}})
+}
+
+func verifC17AAExec(f []string) string {
+	if f[0] == "reset" {
+		verifC17Close()
+		verifC17AAClose()
+		a := &verifC17AA{pubs: []*SubStream{nil}}
+		a.strm = &Stream{
+			AlwaysAvailable:       true,
+			AlwaysAvailableTracks: []conf.AlwaysAvailableTrack{{Codec: conf.CodecG711, SampleRate: 8000, ChannelCount: 1, MULaw: true}},
+			WriteQueueSize:        64,
+			RTPMaxPayloadSize:     1450,
+			ReplaceNTP:            true,
+			Parent:                verifC17Log{},
+		}
+		if err := a.strm.Initialize(); err != nil {
+			return "err-init"
+		}
+		a.rd = &Reader{Parent: verifC17Log{}}
+		m := a.strm.OrigDesc.Medias[0]
+		a.rd.OnData(m, m.Formats[0], func(u *unit.Unit) error {
+			if p, ok := u.Payload.(unit.PayloadG711); ok && len(p) == 3 && p[0] == 0x01 {
+				a.mu.Lock()
+				a.got = append(a.got, int(p[1])<<8|int(p[2]))
+				a.mu.Unlock()
+			}
+			return nil // the offline filler's silence is ignored
+		})
+		a.strm.AddReader(a.rd)
+		verifC17aa = a
+		return "ok"
+	}
+	a := verifC17aa
+	if a == nil {
+		return "bad-op"
+	}
+	switch f[0] {
+	case "aapub":
+		p := a.newPub()
+		if err := p.Initialize(); err != nil {
+			return "err-subinit"
+		}
+		a.pubs = append(a.pubs, p)
+		return "ok"
+	case "aawrite":
+		p, tag := verifutil.Atoi(f[1]), verifutil.Atoi(f[2])
+		if p < 1 || p >= len(a.pubs) {
+			return "bad-op"
+		}
+		a.write(p, tag)
+		return a.answer(tag)
+	case "aarace":
+		p, tag := verifutil.Atoi(f[1]), verifutil.Atoi(f[2])
+		if p < 1 || p >= len(a.pubs) {
+			return "bad-op"
+		}
+		np := a.newPub()
+		a.strm.mutex.RLock()
+		held := true
+		release := func() {
+			if held {
+				held = false
+				a.strm.mutex.RUnlock()
+			}
+		}
+		defer release()
+		initDone := make(chan error, 1)
+		go func() { initDone <- np.Initialize() }()
+		// wait until the replacing Initialize() is parked in mutex.Lock()
+		dl := time.Now().Add(verifC17Timeout)
+		for {
+			if !a.strm.mutex.TryRLock() {
+				break
+			}
+			a.strm.mutex.RUnlock()
+			if time.Now().After(dl) {
+				return "stuck-no-pending-writer"
+			}
+			time.Sleep(50 * time.Microsecond)
+		}
+		writeDone := make(chan struct{})
+		go func() { a.write(p, tag); close(writeDone) }()
+		time.Sleep(3 * time.Millisecond) // the writer has nothing to do but reach the stream lock
+		release()
+		select {
+		case err := <-initDone:
+			if err != nil {
+				return "err-subinit"
+			}
+		case <-time.After(verifC17Timeout):
+			return "stuck-init"
+		}
+		select {
+		case <-writeDone:
+		case <-time.After(verifC17Timeout):
+			return "stuck-write"
+		}
+		a.pubs = append(a.pubs, np)
+		return a.answer(tag)
+	}
+	return "bad-op"
+}
+
 func verifC17Exec(op string) string {
 	f := strings.Fields(op)
+	if (f[0] == "reset" && len(f) > 3 && f[3] == "aa") || strings.HasPrefix(f[0], "aa") {
+		return verifC17AAExec(f)
+	}
 	if f[0] == "reset" {
+		verifC17AAClose()
 		verifC17Close()
 		st := &verifC17State{cap: verifutil.Atoi(f[1]), nf: verifutil.Atoi(f[2]), events: make(chan verifC17Entry, 1024)}
 		st.share = len(f) > 3 && f[3] == "1" && st.nf >= 3
@@ -426,7 +614,34 @@ func verifC17Exec(op string) string {
 
 // ---- generator ----
 
+// publisher switches incl. the forced "write while the replacement waits for the lock" interleaving
+func verifC17GenAA(r *verifutil.Rand) []string {
+	ops := []string{"reset 64 1 aa", "aapub"}
+	cur, tag := 1, 1
+	n := 4 + r.Intn(6)
+	for j := 0; j < n; j++ {
+		switch r.Intn(6) {
+		case 0:
+			ops = append(ops, "aapub")
+			cur++
+		case 1, 2:
+			ops = append(ops, fmt.Sprintf("aarace %d %d", cur, tag))
+			cur++
+		case 3:
+			ops = append(ops, fmt.Sprintf("aawrite %d %d", 1+r.Intn(cur), tag)) // often a replaced publisher
+		default:
+			ops = append(ops, fmt.Sprintf("aawrite %d %d", cur, tag))
+		}
+		tag++
+	}
+	return ops
+}
+
 func verifC17Gen(r *verifutil.Rand, i int, thorough bool) []string {
+	// wall-clock paced (the first publisher waits for the filler's last sample, ≤ 100 ms)
+	if (!thorough && i%20 == 10) || (thorough && i%100 == 10) {
+		return verifC17GenAA(r)
+	}
 	cap := []int{1, 1, 2, 2, 4, 8}[r.Intn(6)]
 	nf := 1 + r.Intn(4)
 	share := 0
@@ -531,6 +746,9 @@ var verifC17LastX string
 
 func verifC17Class(op, impl string) string {
 	w := strings.Fields(op)[0]
+	if strings.HasPrefix(w, "aa") || strings.HasSuffix(op, " aa") {
+		return "aa/" + w + "/" + strings.SplitN(impl, "=", 2)[0]
+	}
 	if w == "reset" {
 		verifC17LastX = ""
 		if strings.HasSuffix(op, " 1") {
@@ -564,6 +782,7 @@ func verifC17Class(op, impl string) string {
 
 func TestVerifC17(t *testing.T) {
 	defer verifC17Close()
+	defer verifC17AAClose()
 	verifutil.Main(t, &verifutil.Harness{
 		ID: "C17", Exec: verifC17Exec, Gen: verifC17Gen, Quick: 400, Thorough: 6000,
 		Class:      verifC17Class,
